@@ -6,6 +6,40 @@ From ZenoV Require Import Lib.Hex Url.Escape Url.EscapeProofs Url.Query Url.Quer
 Import ListNotations.
 Open Scope char_scope.
 
+(* ---------- url.ParseQuery's list is exactly the well-formed pieces, decoded, in place *)
+
+Lemma split_on_no_delim d s : Forall (fun x => contains d x = false) (split_on d s).
+Proof.
+  induction s as [|c r IH]; [repeat constructor|]. cbn [split_on].
+  destruct (Ascii.eqb c d) eqn:E; [constructor; [reflexivity|exact IH]|].
+  pose proof (split_on_nonempty d r) as Hne. destruct (split_on d r) as [|x xs]; [congruence|].
+  inversion IH as [|? ? Hx Hxs]; subst. constructor; [|exact Hxs].
+  cbn [contains existsb]. rewrite Ascii.eqb_sym, E. exact Hx.
+Qed.
+
+Lemma parse_seg_cases s : contains "&" s = false ->
+  parse_seg s = if wf_seg s then [decode_seg s] else [].
+Proof.
+  intro Hamp. unfold parse_seg, wf_seg, decode_seg. destruct s as [|c r]; [reflexivity|].
+  rewrite Hamp. cbn [negb andb].
+  destruct (contains ";" (c :: r)); [reflexivity|]. cbn [negb andb].
+  destruct (cut "=" (c :: r)) as [k v]. cbn [fst snd].
+  destruct (query_unescape k), (query_unescape v); reflexivity.
+Qed.
+
+Lemma parse_query_wf_pieces : forall q,
+  parse_query q = map decode_seg (filter wf_seg (pieces q)).
+Proof.
+  intro q. unfold parse_query, pieces. pose proof (split_on_no_delim "&" q) as H.
+  induction H as [|s l Hs Hl IH]; [reflexivity|]. cbn [flat_map filter].
+  rewrite (parse_seg_cases s Hs), IH. destruct s as [|c r]; [reflexivity|].
+  cbn [nonempty filter]. destruct (wf_seg (c :: r)); reflexivity.
+Qed.
+
+Example parse_query_wf_pieces_nonvacuous :
+  map decode_seg (filter wf_seg (pieces (bs "a=1&&b=2&k=%zz&c=x;y&d"))) = [(bs "a", bs "1"); (bs "b", bs "2"); (bs "d", [])].
+Proof. vm_compute. reflexivity. Qed.
+
 (* ---------- generic list/text lemmas *)
 
 Lemma span_until_app stop x y :
